@@ -2,6 +2,7 @@ use crate::config::Config;
 use crate::diagnostic_emitter::MosResult;
 use codespan_reporting::diagnostic::Diagnostic;
 use fs_err as fs;
+use itertools::Itertools;
 use mos_core::codegen::{codegen, CodegenContext, CodegenOptions};
 use mos_core::errors::map_io_error;
 use mos_core::errors::Diagnostics;
@@ -132,11 +133,25 @@ pub fn build_command(root: &Path, cfg: &Config) -> MosResult<()> {
     bw.write_banks(banks, &target_dir, &filename)?;
 
     if cfg.build.listing {
-        for (source_path, contents) in
-            to_listing(&generated_code, cfg.formatting.listing.num_bytes_per_line)?
-        {
-            let listing_path =
-                format!("{}.lst", source_path.file_stem().unwrap().to_string_lossy());
+        let listings = to_listing(&generated_code, cfg.formatting.listing.num_bytes_per_line)?;
+        let stem = |path: &Path| path.file_stem().unwrap().to_string_lossy().to_string();
+        for (source_path, contents) in listings.iter().sorted_by(|a, b| a.0.cmp(b.0)) {
+            // Source files that share their stem ('a.asm' and 'a.inc', or files in different directories) would overwrite
+            // each other's listing, so those are named after their whole path
+            let is_unique = listings
+                .keys()
+                .filter(|p| stem(p) == stem(source_path))
+                .count()
+                == 1;
+            let listing_path = if is_unique {
+                format!("{}.lst", stem(source_path))
+            } else {
+                let relative = source_path.strip_prefix(root).unwrap_or(source_path);
+                format!(
+                    "{}.lst",
+                    relative.to_string_lossy().replace(['/', '\\'], "_")
+                )
+            };
             let mut out = fs::File::create(target_dir.join(listing_path)).map_err(map_io_error)?;
             out.write_all(contents.as_bytes()).map_err(map_io_error)?;
         }
